@@ -579,7 +579,12 @@ Definition op_slurp (m : mstate) : prog (mstate * nat) :=
     if is_ok a then close_field (OTemp 0) (Ret (m, RC_OK)) else Ret (m, RC_OK)).   (* callers fall back *)
 
 (* ---- uv_spawn, process.c:967-1093 ------------------------------------- *)
-Inductive sdesc := SdIgnore | SdPipe (sh : nat) | SdInherit.
+(* stdio containers: UV_IGNORE; UV_CREATE_PIPE with pipe handle sh; UV_INHERIT_FD / UV_INHERIT_STREAM
+   (a descriptor of the caller or of another handle: uv_spawn only passes its number on - nothing
+   of it enters pipes[][0], and the "error:" loop skips the entry); a container uv__process_init_stdio
+   rejects with UV_EINVAL: UV_CREATE_PIPE whose handle is not a pipe (process.c:203-204) or
+   UV_INHERIT_STREAM of a stream without descriptor (:225-226) *)
+Inductive sdesc := SdIgnore | SdPipe (sh : nat) | SdInherit | SdBadPipe.
 
 (* first loop, process.c:1012-1016: a socketpair per UV_CREATE_PIPE container *)
 Fixpoint spawn_pairs (i : nat) (sd : list sdesc) (k : bool -> prog (mstate * nat)) : prog (mstate * nat) :=
@@ -588,10 +593,13 @@ Fixpoint spawn_pairs (i : nat) (sd : list sdesc) (k : bool -> prog (mstate * nat
   | SdPipe _ :: r =>
       Create KSocketpair [OTemp (2 * i); OTemp (2 * i + 1)] true (fun a =>
         if is_ok a then spawn_pairs (S i) r k else k false)
+  | SdBadPipe :: _ => k false
   | _ :: r => spawn_pairs (S i) r k
   end.
 
-(* the "error:" label, process.c:1076-1092, applied to the pairs that still are in pipes[][] *)
+(* the "error:" label, process.c:1076-1092: closes what is in pipes[][] of the entries that are not
+   UV_INHERIT_FD / UV_INHERIT_STREAM - i.e. exactly the socketpairs uv_spawn itself created and has
+   not handed to a stream yet (the call-local OTemp entries); nothing else in the table *)
 Definition spawn_error_temps {A} (c : prog A) : prog A := CloseIf is_temp false c.
 
 (* uv__process_close_stream for the containers before i (process.c:1064-1067), which now also
